@@ -188,6 +188,49 @@ theorem idle_facts {p : Pc} (h : p.idle = true) :
 theorem exited_facts {p : Pc} (h : p.isExited = true) : p.quitHand = 0 ∧ p.gone = 1 := by
   cases p <;> simp_all [Pc.isExited, Pc.quitHand, Pc.gone]
 
+/-- If every live worker sits in the idle loop (and somebody is live), a message lies in some deque:
+somebody has exited (counter invariant), so a `Quit` exists (domino), and nobody holds it in hand. -/
+theorem idle_has_msg {n : Nat} {roots : List Tree} {s : State} (hn : 0 < n)
+    (h : Reachable n roots s)
+    (hall : ∀ u, u < n → (s.pc u).isExited = true ∨ (s.pc u).idle = true) :
+    ∃ v, v < n ∧ s.dq v ≠ [] := by
+  obtain ⟨_, hpos⟩ := reachable_count hn h
+  have hex : ∃ u, u < n ∧ (s.pc u).isExited = true := by
+    by_cases hc : 0 < sumTo n (Pc.counted ∘ s.pc)
+    · obtain ⟨u, hu, hp⟩ := sumTo_pos hc
+      refine ⟨u, hu, ?_⟩
+      rcases hall u hu with h1 | h1
+      · exact h1
+      · have := (idle_facts h1).1
+        simp only [Function.comp] at hp; omega
+    · have hz : 0 < sumTo n (Pc.zeroed ∘ s.pc) := by omega
+      obtain ⟨u, hu, hp⟩ := sumTo_pos hz
+      refine ⟨u, hu, ?_⟩
+      rcases hall u hu with h1 | h1
+      · exact h1
+      · have := (idle_facts h1).2.1
+        simp only [Function.comp] at hp; omega
+  obtain ⟨u, hu, hue⟩ := hex
+  have hgone : 0 < sumTo n (Pc.gone ∘ s.pc) := by
+    have := le_sumTo (Pc.gone ∘ s.pc) hu
+    simp only [Function.comp, (exited_facts hue).2] at this
+    omega
+  have hq := reachable_quitinv h hgone
+  unfold quits at hq
+  have hnohand : sumTo n (Pc.quitHand ∘ s.pc) = 0 := by
+    apply sumTo_zero
+    intro x hx
+    simp only [Function.comp]
+    rcases hall x hx with h1 | h1
+    · exact (exited_facts h1).1
+    · exact (idle_facts h1).2.2.1
+  have hpos2 : 0 < sumTo n (dqQuits ∘ s.dq) := by omega
+  obtain ⟨v, hv, hvq⟩ := sumTo_pos hpos2
+  refine ⟨v, hv, ?_⟩
+  intro e
+  simp only [Function.comp, e, dqQuits_nil] at hvq
+  omega
+
 /-- Deadlock freedom: in every reachable state in which not every worker has exited, some worker
 — running alone — reaches a step that lowers the termination measure after finitely many idle-loop
 steps (none, unless every live worker sits in the idle loop; then a `Quit` or work message lies in
@@ -207,7 +250,6 @@ theorem progress_possible {n : Nat} {roots : List Tree} {s : State} (hn : 0 < n)
         cases hi : (s.pc u).idle with
         | true => exact Or.inr rfl
         | false => exact absurd ⟨u, hu, he, hi⟩ hA
-    -- a live worker exists; it is idle
     have hlive : ∃ w, w < n ∧ (s.pc w).isExited = false := by
       apply Classical.byContradiction
       intro hcon
@@ -221,43 +263,7 @@ theorem progress_possible {n : Nat} {roots : List Tree} {s : State} (hn : 0 < n)
       rcases hall w hw with h1 | h1
       · rw [h1] at hl; cases hl
       · exact h1
-    -- somebody has exited (the counter invariant), hence a Quit exists (the domino), in a deque
-    obtain ⟨_, hpos⟩ := reachable_count hn h
-    have hex : ∃ u, u < n ∧ (s.pc u).isExited = true := by
-      by_cases hc : 0 < sumTo n (Pc.counted ∘ s.pc)
-      · obtain ⟨u, hu, hp⟩ := sumTo_pos hc
-        refine ⟨u, hu, ?_⟩
-        rcases hall u hu with h1 | h1
-        · exact h1
-        · have := (idle_facts h1).1
-          simp only [Function.comp] at hp; omega
-      · have hz : 0 < sumTo n (Pc.zeroed ∘ s.pc) := by omega
-        obtain ⟨u, hu, hp⟩ := sumTo_pos hz
-        refine ⟨u, hu, ?_⟩
-        rcases hall u hu with h1 | h1
-        · exact h1
-        · have := (idle_facts h1).2.1
-          simp only [Function.comp] at hp; omega
-    obtain ⟨u, hu, hue⟩ := hex
-    have hgone : 0 < sumTo n (Pc.gone ∘ s.pc) := by
-      have := le_sumTo (Pc.gone ∘ s.pc) hu
-      simp only [Function.comp, (exited_facts hue).2] at this
-      omega
-    have hq := reachable_quitinv h hgone
-    unfold quits at hq
-    have hnohand : sumTo n (Pc.quitHand ∘ s.pc) = 0 := by
-      apply sumTo_zero
-      intro x hx
-      simp only [Function.comp]
-      rcases hall x hx with h1 | h1
-      · exact (exited_facts h1).1
-      · exact (idle_facts h1).2.2.1
-    have hpos2 : 0 < sumTo n (dqQuits ∘ s.dq) := by omega
-    obtain ⟨v, hv, hvq⟩ := sumTo_pos hpos2
-    have hdq : s.dq v ≠ [] := by
-      intro e
-      simp only [Function.comp, e, dqQuits_nil] at hvq
-      omega
+    obtain ⟨v, hv, hdq⟩ := idle_has_msg hn h hall
     obtain ⟨s1, s2, hp, hst, hlt⟩ := idle_progress hw hv s hwi hdq
     exact ⟨w, hw, s1, s2, hp, hst, hlt⟩
 
